@@ -61,6 +61,9 @@ type Opts struct {
 	// KeepNoReturn: when false (default) calls to functions that never return
 	// (os.Exit, panicking helpers) end the path like a panic.
 	KeepNoReturn bool
+	// Observe, when set, is called for every reached instruction with a lookup of what the path environment knows
+	// about a phi on the way it was reached (a constant, or a value known to be non-nil).
+	Observe func(in ssa.Instruction, phiVal func(*ssa.Phi) (ssa.Value, bool))
 }
 
 // Result of a reachability query.
@@ -363,7 +366,24 @@ func threadedSucc(b, from *ssa.BasicBlock) int {
 // Reach path-sensitive for flags: `found := false … found = true; break … if found`, also through chains of phis.
 type phiEnv struct {
 	vals map[*ssa.Phi]ssa.Value // *ssa.Const, or any value for which KnownNonNil holds
-	sig  uint64                 // order-independent hash of vals (sum of entry hashes)
+	// nn: what a taken `v == nil` / `v != nil` branch said about a non-phi value (true: not nil). A phi that later
+	// takes such a value as its operand inherits the fact — the err variable an inlined helper hands to its caller.
+	nn  map[ssa.Value]bool
+	sig uint64 // order-independent hash of vals and nn (sum of entry hashes)
+}
+
+func factHash(v ssa.Value, nonNil bool) uint64 {
+	h := fnv.New64a()
+	fmt.Fprintf(h, "nn|%p|%v", v, nonNil)
+	return h.Sum64()
+}
+
+func (e phiEnv) nonNil(v ssa.Value) bool {
+	if KnownNonNil(v) {
+		return true
+	}
+	nn, ok := e.nn[v]
+	return ok && nn
 }
 
 func entryHash(ph *ssa.Phi, v ssa.Value) uint64 {
@@ -418,16 +438,21 @@ func (e phiEnv) with(b, from *ssa.BasicBlock) phiEnv {
 				delete(nv, ph)
 			}
 		default:
-			if KnownNonNil(in) {
+			if fact, known := e.nn[in]; known && !fact {
+				nv[ph] = nilOf(in)
+			} else if e.nonNil(in) {
 				nv[ph] = in
 			} else {
 				delete(nv, ph)
 			}
 		}
 	}
-	out := phiEnv{vals: nv}
+	out := phiEnv{vals: nv, nn: e.nn}
 	for p, v := range nv {
 		out.sig += entryHash(p, v)
+	}
+	for v, f := range e.nn {
+		out.sig += factHash(v, f)
 	}
 	return out
 }
@@ -451,6 +476,32 @@ func (e phiEnv) learn(cond ssa.Value, taken bool) phiEnv {
 		}
 		break
 	}
+	if bo, isB := v.(*ssa.BinOp); isB && (bo.Op == token.EQL || bo.Op == token.NEQ) {
+		x, y := bo.X, bo.Y
+		if IsNilConst(x) {
+			x, y = y, x
+		}
+		if _, isPhi := x.(*ssa.Phi); IsNilConst(y) && !isPhi && !IsNilConst(x) {
+			nonNil := (bo.Op == token.NEQ) == taken
+			if old, known := e.nn[x]; known && old == nonNil {
+				return e
+			}
+			nn := make(map[ssa.Value]bool, len(e.nn)+1)
+			for k, f := range e.nn {
+				nn[k] = f
+			}
+			nn[x] = nonNil
+			out := phiEnv{vals: e.vals, nn: nn}
+			for p, pv := range e.vals {
+				out.sig += entryHash(p, pv)
+			}
+			for k, f := range nn {
+				out.sig += factHash(k, f)
+			}
+			return out
+		}
+		return e
+	}
 	ph, ok := v.(*ssa.Phi)
 	if !ok {
 		return e
@@ -466,9 +517,12 @@ func (e phiEnv) learn(cond ssa.Value, taken bool) phiEnv {
 		nv[p] = x
 	}
 	nv[ph] = ssa.NewConst(constant.MakeBool(taken), types.Typ[types.Bool])
-	out := phiEnv{vals: nv}
+	out := phiEnv{vals: nv, nn: e.nn}
 	for p, x := range nv {
 		out.sig += entryHash(p, x)
+	}
+	for k, f := range e.nn {
+		out.sig += factHash(k, f)
 	}
 	return out
 }
@@ -510,6 +564,16 @@ func (e phiEnv) evalCond(cond ssa.Value) (bool, bool) {
 		}
 		ph, isPhi := l.(*ssa.Phi)
 		if !isPhi {
+			// a value already tested against nil on this path
+			a, b := x.X, x.Y
+			if IsNilConst(a) {
+				a, b = b, a
+			}
+			if IsNilConst(b) && (x.Op == token.EQL || x.Op == token.NEQ) {
+				if fact, known := e.nn[a]; known {
+					return (x.Op == token.NEQ) == fact, true
+				}
+			}
 			return false, false
 		}
 		v, ok := e.vals[ph]
@@ -528,7 +592,7 @@ func (e phiEnv) evalCond(cond ssa.Value) (bool, bool) {
 			switch {
 			case IsNilConst(v):
 				return op == token.EQL, true
-			case KnownNonNil(v):
+			case e.nonNil(v):
 				return op == token.NEQ, true
 			}
 			return false, false
@@ -613,6 +677,10 @@ func Reach(starts []Pt, o Opts) Result {
 				break
 			}
 			res.Reached[in] = true
+			if o.Observe != nil {
+				env := it.env
+				o.Observe(in, func(ph *ssa.Phi) (ssa.Value, bool) { v, ok := env.vals[ph]; return v, ok })
+			}
 			if ret, isRet := in.(*ssa.Return); isRet {
 				tuple := make([]ssa.Value, len(ret.Results))
 				for ri := range ret.Results {
